@@ -3,8 +3,8 @@ CONSTANTS
   Abis = {"x64-elf"}
   MaxUses = 2
   Cat = "full"
-  MapNames = {"AB", "AB_BC", "AB_BA", "AB_XB"}
-  WithPatch = TRUE
+  MapNames = {"AB", "AB_BC"}
+  WithPatch = FALSE
   Emit = TRUE
 INVARIANT Inv
 CHECK_DEADLOCK FALSE
